@@ -41,6 +41,7 @@ Definition len_is {A} (n : nat) (l : list A) : bool := Nat.eqb (List.length l) n
 Definition tables_wf : bool :=
   forallb (fun s => match row_of s with
                     | Some r => len_is 4 (r_calc_key_prf r) && len_is 5 (r_ffv r)
+                                && len_is 4 (r_labels r) && forallb (len_is 5) (r_labels r) && len_is 4 (r_exporter r)
                     | None => false end) all_suites
   && Nat.eqb (List.length rows) (List.length all_suites)
   && forallb (fun c => match sassoc c srv_candidates with Some t => len_is 5 t | None => false end) creds
@@ -80,9 +81,51 @@ Definition prf_ok (m : meaning) (r : suite_row) (v : Z) : bool :=
        | None => false
        end.
 
+(* every other place where the suite decides a hash or a size, during and after the handshake:
+   calc_key for each label (key expansion, master secret, extended master secret, both Finished),
+   keyingMaterialExporter, the deprecated calcMasterSecret/calcExtendedMasterSecret/calcFinished, and
+   the TLS 1.3 KeyUpdate (next traffic secret, new key, new IV; all four role/direction wrappers) *)
+Definition is_some_str (x : option string) (want : string) : bool := ostring_eqb x (Some want).
+
+Definition labels_ok (m : meaning) (r : suite_row) (v : Z) : bool :=
+  if v <=? 3 then
+    match nth_error (r_labels r) (Z.to_nat v) with
+    | Some row =>
+        forallb (fun p => (* index 2 = extended master secret, undefined under SSLv3 *)
+                   if (v =? 0) && (fst p =? 2) then true else is_some_str (snd p) (prf_at m v))
+                (combine [0; 1; 2; 3; 4] row)
+        && len_is 5 row
+    | None => false
+    end
+  else true.
+
+Definition exporter_ok (m : meaning) (r : suite_row) (v : Z) : bool :=
+  if 1 <=? v then
+    match nth_error (r_exporter r) (Z.to_nat (v - 1)) with
+    | Some k => is_some_str k (prf_at m v)
+    | None => false
+    end
+  else true.
+
+Definition deprecated_ok (m : meaning) (r : suite_row) (v : Z) : bool :=
+  if v =? 3 then forallb (fun p => is_some_str (snd p) (prf_at m 3)) (r_deprecated r) else true.
+
+Definition keyupdate_ok (m : meaning) (r : suite_row) (v : Z) : bool :=
+  if v =? 4 then
+    let h := prf_at m 4 in
+    match r_keyupdate r with
+    | Some (hs, ls, hk, lk, hi, li, nm, tag) =>
+        is_some_str hs h && (ls =? prf_hash_len m) && is_some_str hk h && (lk =? m_keylen m)
+        && is_some_str hi h && (li =? 12) && ostring_eqb nm (enc_object_name m) && (tag =? m_tag m)
+        && len_is 4 (r_ku_roles r) && forallb (fun x => is_some_str x h) (r_ku_roles r)
+    | None => false
+    end
+  else true.
+
 Definition chk_classification (s v : Z) : bool :=
   match meaning_of s, row_of s with
   | Some m, Some r => cipher_settings_ok m r && mac_settings_ok m r && prf_ok m r v
+                      && labels_ok m r v && exporter_ok m r v && deprecated_ok m r v && keyupdate_ok m r v
   | _, _ => false
   end.
 
